@@ -147,6 +147,8 @@ impl<T: Actor> ActorRef<T> {
             payload: Box::new(msg),
             reply_channel: None,     // reply_channel is None for tell
             actor_ref: self.clone(), // Include the actor ref for context
+            #[cfg(feature = "deadlock-detection")]
+            wait_for_edge: None,
         };
 
         #[cfg(feature = "tracing")]
@@ -264,8 +266,9 @@ impl<T: Actor> ActorRef<T> {
                          or restructure actor dependencies."
                     );
                 }
-                graph.insert(caller.id, callee);
-                Some(crate::WaitForGuard(caller.id))
+                let token = crate::next_ask_token();
+                graph.insert(caller.id, (callee, token));
+                Some((crate::WaitForGuard(caller.id), token))
             } else {
                 None
             }
@@ -276,6 +279,8 @@ impl<T: Actor> ActorRef<T> {
             payload: Box::new(msg),
             reply_channel: Some(reply_tx),
             actor_ref: self.clone(), // Include the actor ref for context
+            #[cfg(feature = "deadlock-detection")]
+            wait_for_edge: _guard.as_ref().map(|(guard, token)| (guard.0, *token)),
         };
 
         #[cfg(feature = "tracing")]
@@ -516,6 +521,8 @@ impl<T: Actor> ActorRef<T> {
             payload: Box::new(msg),
             reply_channel: None,     // reply_channel is None for tell
             actor_ref: self.clone(), // Include the actor ref for context
+            #[cfg(feature = "deadlock-detection")]
+            wait_for_edge: None,
         };
 
         #[cfg(feature = "tracing")]
@@ -654,6 +661,8 @@ impl<T: Actor> ActorRef<T> {
             payload: Box::new(msg),
             reply_channel: Some(reply_tx),
             actor_ref: self.clone(), // Include the actor ref for context
+            #[cfg(feature = "deadlock-detection")]
+            wait_for_edge: None,
         };
 
         #[cfg(feature = "tracing")]
